@@ -574,7 +574,16 @@ func genC15Conc(seed uint64, run int, tier string) *RunSpec {
 			to = (to + 1) % len(f.Versions)
 		}
 		cur[f.Name] = to
-		spec.Edits = append(spec.Edits, EditEvent{Step: 1 + int64(r.Intn(horizon)), File: f.Name, To: to})
+		e := EditEvent{Step: 1 + int64(r.Intn(horizon)), File: f.Name, To: to}
+		if r.Chance(45) {
+			// lands inside a window in which some task has a file's state in flight: right after the n-th access
+			// (Stat / Open / Read) of the edited file itself or of another file of the set
+			e.AtCall = 1 + r.Intn(14)
+			if r.Chance(30) {
+				e.On = Pick(r, spec.Files).Name
+			}
+		}
+		spec.Edits = append(spec.Edits, e)
 	}
 	sort.SliceStable(spec.Edits, func(i, j int) bool { return spec.Edits[i].Step < spec.Edits[j].Step })
 	spec.Warm = r.Chance(50)
@@ -617,9 +626,14 @@ func execC15Conc(spec *RunSpec) *Result {
 			lastStamp = cr.stamps[i][1]
 		}
 	}
-	for _, e := range spec.Edits {
+	effective := cr.fs.EffectiveEdits()
+	res.addStat("edits_fired_by_access", 0)
+	for _, e := range effective {
 		if e.Step > lastStamp {
 			continue // never took effect while tasks ran
+		}
+		if e.AtCall > 0 {
+			res.addStat("edits_fired_by_access", 1)
 		}
 		ops = append(ops, porcupine.Operation{ClientId: 0, Input: regIn{Write: true, File: e.File, V: e.To}, Call: e.Step*2 - 1, Output: e.To, Return: e.Step * 2})
 		final[e.File] = e.To
